@@ -155,7 +155,8 @@ def _structure(
             nodes[res_node.path] = res_node
             all_refs[fis_.store_path] = sig
             sub_set.update([n.path for n in sub_nodes])
-            node_deps[res_node.path] = sub_set
+            # The same path may be visited several times (the known dependencies accumulate).
+            node_deps.setdefault(res_node.path, set()).update(sub_set)
             for sub_n in sub_nodes:
                 k = (sub_n.path, res_node.path)
                 if k not in deps or deps[k].edge_type != DirectEdge:
